@@ -30,6 +30,8 @@ type Term struct {
 	literal bool
 	// ms: for a make([]T, n) term, the allocation (elements assigned at one place: elemOf)
 	ms *ssa.MakeSlice
+	// ix: for a map(in, elem) term, how the loop index reads inside elem
+	ix string
 }
 
 func (t *Term) String() string      { return t.render(true) }
@@ -100,6 +102,10 @@ type Frame struct {
 	Via     *Frame
 	ViaSite ssa.Instruction
 	Depth   int
+	// ArgsFr: the frame the arguments of Call are evaluated in, when that is not Parent
+	// (a closure called through a function-typed parameter: free variables bind in the
+	// creating frame, arguments in the calling one)
+	ArgsFr *Frame
 	// Assume: this activation was reached through a dispatch table (m[key](…) with m a
 	// package-level map literal): in it, key == the constant the callee is stored under
 	Assume *assumption
@@ -219,6 +225,9 @@ func (ts *Terms) compute(v ssa.Value, fr *Frame, depth int) *Term {
 			// bound method closures: receiver is a free var of the $bound wrapper;
 			// static calls carry receiver as Args[0]
 			if idx >= 0 && idx < len(args) {
+				if fr.ArgsFr != nil {
+					return ts.of(args[idx], fr.ArgsFr, depth+1)
+				}
 				return ts.of(args[idx], fr.Parent, depth+1)
 			}
 		}
@@ -280,6 +289,12 @@ func (ts *Terms) compute(v ssa.Value, fr *Frame, depth int) *Term {
 	case *ssa.TypeAssert:
 		return ts.of(x.X, fr, depth+1)
 	case *ssa.Slice:
+		// make([]byte, 8) with constant size is `new [8]byte (makeslice)` sliced
+		if a, ok := x.X.(*ssa.Alloc); ok && a.Comment == "makeslice" {
+			if v := putUint64Into(x, 8); v != nil {
+				return mk("call", "sdk.Uint64ToBigEndian", ts.of(v, fr, depth+1))
+			}
+		}
 		if x.Low == nil && x.High == nil {
 			if el := variadicElems(x); len(el) > 0 {
 				t := mk("call", "varargs")
@@ -344,6 +359,11 @@ func (ts *Terms) compute(v ssa.Value, fr *Frame, depth int) *Term {
 			if t := ts.helperInline(c, fr, x.Index); t != nil {
 				return t
 			}
+			if cc := c.Common(); !cc.IsInvoke() && cc.StaticCallee() == nil && resolveFnValue(cc.Value, fr, 0) == nil {
+				if t := ts.closureCall(c, fr, x.Index, depth); t != nil {
+					return t
+				}
+			}
 		}
 		return ts.extract(ts.of(x.Tuple, fr, depth+1), x.Index)
 	case *ssa.Phi:
@@ -376,6 +396,10 @@ func (ts *Terms) compute(v ssa.Value, fr *Frame, depth int) *Term {
 	case *ssa.MakeMap:
 		return &Term{Op: "alloc", Name: "map", Site: x.Pos()}
 	case *ssa.MakeSlice:
+		// bz := make([]byte, 8); binary.BigEndian.PutUint64(bz, v)  ≡  sdk.Uint64ToBigEndian(v)
+		if v := putUint64Of(x); v != nil {
+			return mk("call", "sdk.Uint64ToBigEndian", ts.of(v, fr, depth+1))
+		}
 		t := &Term{Op: "alloc", Name: "slice", Site: x.Pos(), ms: x, fr: fr}
 		if c, ok := x.Len.(*ssa.Const); ok && c.Value != nil && c.Value.ExactString() == "0" {
 			t.Args = []*Term{mk("const", "0")} // make([]T, 0, n): empty (not printed)
@@ -556,6 +580,12 @@ func (ts *Terms) load(addr ssa.Value, fr *Frame, depth int) *Term {
 		if t := ts.elemOf(base, idx, depth); t != nil {
 			return t
 		}
+		if base.Op == "call" && base.Name == "map" && base.ix != "" && len(base.Args) == 2 {
+			if base.ix == idx.LooseString() {
+				return base.Args[1]
+			}
+			return substIndex(base.Args[1], base.ix, idx)
+		}
 		return mk("index", "", base, idx)
 	}
 	// pointer value (e.g. msg *MsgX): a load of the whole struct is the pointer's term
@@ -735,7 +765,12 @@ func (ts *Terms) call(x *ssa.Call, fr *Frame, depth int) *Term {
 		// (mapSlice(xs, sdk.AccAddress.String) calling f(v))
 		if dyn = resolveFnValue(c.Value, fr, 0); dyn != nil {
 			pkg, name = fnNames(dyn)
+		} else if t := ts.closureCall(x, fr, 0, depth); t != nil {
+			return t
 		}
+	}
+	if t := ts.mapperCall(x, fr, depth); t != nil {
+		return t
 	}
 	arg := func(i int) *Term {
 		if c.IsInvoke() {
@@ -748,6 +783,26 @@ func (ts *Terms) call(x *ssa.Call, fr *Frame, depth int) *Term {
 			return ts.of(c.Args[i], fr, depth+1)
 		}
 		return mk("nil", "")
+	}
+	// st.Iterator(nil, nil) / st.ReverseIterator(nil, nil) on a prefix store walks exactly
+	// what storetypes.KVStore(Reverse)PrefixIterator(base, prefix) walks
+	if (pkg == storeTypesPath && (name == "KVStore.Iterator" || name == "KVStore.ReverseIterator")) ||
+		(pkg == "cosmossdk.io/store/prefix" && (name == "Store.Iterator" || name == "Store.ReverseIterator")) {
+		if arg(1).Op == "nil" && arg(2).Op == "nil" {
+			st := arg(0)
+			if st.Op == "call" && strings.HasSuffix(st.Name, "prefix.NewStore") && len(st.Args) == 2 {
+				base, pfx := st.Args[0], st.Args[1]
+				for base.Op == "call" && strings.HasSuffix(base.Name, "prefix.NewStore") && len(base.Args) == 2 {
+					pfx = mk("call", "append", base.Args[1], pfx)
+					base = base.Args[0]
+				}
+				n := "storetypes.KVStorePrefixIterator"
+				if strings.HasSuffix(name, "ReverseIterator") {
+					n = "storetypes.KVStoreReversePrefixIterator"
+				}
+				return &Term{Op: "call", Name: n, Args: []*Term{base, pfx}, Site: x.Pos(), src: x, fr: fr}
+			}
+		}
 	}
 	sdkT := "github.com/cosmos/cosmos-sdk/types"
 	switch {
@@ -1544,11 +1599,161 @@ func resolveFnValue(v ssa.Value, fr *Frame, d int) *ssa.Function {
 		}
 		for i, p := range fn.Params {
 			if p == x && i < len(cc.Args) {
-				return resolveFnValue(cc.Args[i], fr.Parent, d+1)
+				return resolveFnValue(cc.Args[i], argsFrame(fr), d+1)
 			}
 		}
 	}
 	return nil
+}
+
+func argsFrame(fr *Frame) *Frame {
+	if fr.ArgsFr != nil {
+		return fr.ArgsFr
+	}
+	return fr.Parent
+}
+
+// resolveClosure: the function literal a function-typed value is on this chain, with the
+// frame that created it.
+func resolveClosure(v ssa.Value, fr *Frame, d int) (*ssa.MakeClosure, *ssa.Function, *Frame) {
+	if d > 8 {
+		return nil, nil, nil
+	}
+	switch x := v.(type) {
+	case *ssa.MakeClosure:
+		fn, _ := x.Fn.(*ssa.Function)
+		if fn == nil || fn.Blocks == nil || fn.Parent() == nil {
+			return nil, nil, nil
+		}
+		return x, fn, fr
+	case *ssa.Function:
+		if x.Parent() != nil && x.Blocks != nil && len(x.FreeVars) == 0 {
+			return nil, x, fr // a function literal that captures nothing
+		}
+	case *ssa.ChangeType:
+		return resolveClosure(x.X, fr, d+1)
+	case *ssa.Parameter:
+		if fr == nil || fr.Call == nil || fr.Call.Common().IsInvoke() {
+			return nil, nil, nil
+		}
+		fn := x.Parent()
+		cc := fr.Call.Common()
+		for i, p := range fn.Params {
+			if p == x && i < len(cc.Args) {
+				return resolveClosure(cc.Args[i], argsFrame(fr), d+1)
+			}
+		}
+	}
+	return nil, nil, nil
+}
+
+// closureCall: result idx of a call of a function-typed value that is, on this chain, a
+// function literal: the value it returns on its non-failure returns, parameters bound to
+// this call's arguments and free variables in the creating frame.
+func (ts *Terms) closureCall(x *ssa.Call, fr *Frame, idx int, depth int) *Term {
+	if depth > 30 || frameDepth(fr) >= 14 {
+		return nil
+	}
+	mc, fn, creator := resolveClosure(x.Common().Value, fr, 0)
+	if fn == nil || !isIrismodFunc(fn) || onChain(fr, fn) || idx >= fn.Signature.Results().Len() {
+		return nil
+	}
+	nfr := &Frame{Fn: fn, Parent: creator, MC: mc, Call: x, ArgsFr: fr, Depth: frameDepth(fr) + 1}
+	m := map[string]*Term{}
+	for _, r := range returnsOf(fn) {
+		if isFailureReturn(r) || idx >= len(r.Results) {
+			continue
+		}
+		t := ts.of(r.Results[idx], nfr, depth+1)
+		m[t.String()] = t
+	}
+	if len(m) == 0 {
+		return nil
+	}
+	return phiOf(m)
+}
+
+type mapperInfo struct {
+	store *ssa.Store // out[i] = v
+	idx   ssa.Value
+}
+
+// mapperOf: g(in []T, f func(T) U) []U that returns make([]U, len(in)) filled by the one
+// statement out[i] = …f(in[i])… of its only loop (nil for an empty input is fine).
+func mapperOf(g *ssa.Function) *mapperInfo {
+	if g == nil || g.Blocks == nil || !isIrismodFunc(g) || len(g.Params) != 2 || g.Signature.Results().Len() != 1 || !singleLoop(g) {
+		return nil
+	}
+	if _, ok := g.Params[0].Type().Underlying().(*types.Slice); !ok {
+		return nil
+	}
+	if _, ok := g.Params[1].Type().Underlying().(*types.Signature); !ok {
+		return nil
+	}
+	var ms *ssa.MakeSlice
+	for _, b := range g.Blocks {
+		for _, ins := range b.Instrs {
+			if m, ok := ins.(*ssa.MakeSlice); ok {
+				if ms != nil {
+					return nil
+				}
+				ms = m
+			}
+		}
+	}
+	if ms == nil || ms.Referrers() == nil {
+		return nil
+	}
+	lc, ok := ms.Len.(*ssa.Call)
+	if !ok || len(lc.Common().Args) != 1 || lc.Common().Args[0] != ssa.Value(g.Params[0]) {
+		return nil
+	}
+	if b, ok := lc.Common().Value.(*ssa.Builtin); !ok || b.Name() != "len" {
+		return nil
+	}
+	for _, r := range returnsOf(g) {
+		if r.Results[0] != ssa.Value(ms) && !isNilConst(r.Results[0]) {
+			return nil
+		}
+	}
+	var mi *mapperInfo
+	for _, r := range *ms.Referrers() {
+		ia, ok := r.(*ssa.IndexAddr)
+		if !ok || ia.Referrers() == nil {
+			continue
+		}
+		for _, r2 := range *ia.Referrers() {
+			st, ok := r2.(*ssa.Store)
+			if !ok || st.Addr != ssa.Value(ia) {
+				continue
+			}
+			if mi != nil || !inLoop(st.Block()) {
+				return nil
+			}
+			mi = &mapperInfo{st, ia.Index}
+		}
+	}
+	return mi
+}
+
+// mapperCall: map(in, element pattern) for a call of an elementwise mapper.
+func (ts *Terms) mapperCall(x *ssa.Call, fr *Frame, depth int) *Term {
+	c := x.Common()
+	g := c.StaticCallee()
+	if g == nil || c.IsInvoke() || len(c.Args) != 2 || depth > 30 || frameDepth(fr) >= 12 || onChain(fr, g) {
+		return nil
+	}
+	mi := mapperOf(g)
+	if mi == nil {
+		return nil
+	}
+	nfr := &Frame{Fn: g, Parent: fr, Call: x, Depth: frameDepth(fr) + 1}
+	elem := ts.of(mi.store.Val, nfr, depth+1)
+	ix := ts.of(mi.idx, nfr, depth+1).LooseString()
+	if !strings.Contains(ix, "φ") {
+		return nil
+	}
+	return &Term{Op: "call", Name: "map", Args: []*Term{ts.of(c.Args[0], fr, depth+1), elem}, Site: x.Pos(), ix: ix}
 }
 
 func fnNames(f *ssa.Function) (pkg, name string) {
@@ -1561,4 +1766,54 @@ func fnNames(f *ssa.Function) (pkg, name string) {
 		return p, recvName(o) + "." + o.Name()
 	}
 	return p, o.Name()
+}
+
+// putUint64Of: the value written by the one binary.BigEndian.PutUint64(buf, v) that fills
+// the 8-byte buffer (nothing else writes it).
+func putUint64Of(ms *ssa.MakeSlice) ssa.Value {
+	c, ok := ms.Len.(*ssa.Const)
+	if !ok || c.Value == nil || c.Value.ExactString() != "8" {
+		return nil
+	}
+	return putUint64Into(ms, 8)
+}
+
+func putUint64Into(ms ssa.Value, n int) ssa.Value {
+	if sl, ok := ms.(*ssa.Slice); ok {
+		at, ok := sl.X.Type().Underlying().(*types.Pointer)
+		if !ok {
+			return nil
+		}
+		arr, ok := at.Elem().Underlying().(*types.Array)
+		if !ok || arr.Len() != int64(n) {
+			return nil
+		}
+	}
+	if ms.Referrers() == nil {
+		return nil
+	}
+	var val ssa.Value
+	for _, r := range *ms.Referrers() {
+		switch x := r.(type) {
+		case *ssa.Call:
+			pkg, name := calleeName(x.Common())
+			if pkg == "encoding/binary" && name == "bigEndian.PutUint64" && len(x.Common().Args) == 3 && x.Common().Args[1] == ssa.Value(ms) {
+				if val != nil {
+					return nil
+				}
+				val = x.Common().Args[2]
+				continue
+			}
+			// handed on as an argument (append(key, bz...), store.Set(key, bz)): a read
+		case *ssa.IndexAddr:
+			if x.Referrers() != nil {
+				for _, r2 := range *x.Referrers() {
+					if st, ok := r2.(*ssa.Store); ok && st.Addr == ssa.Value(x) {
+						return nil
+					}
+				}
+			}
+		}
+	}
+	return val
 }
